@@ -88,8 +88,8 @@ Lemma wcall_prop_accepts_model : forall k rej x d,
   wcall_prop (mkWC k rej x d) (wobs_of k d (wrapx k rej x d)) = true.
 Proof.
   intros k rej x d.
-  destruct k as [| | | | | | | | |m u|]; try destruct m; try destruct u; destruct rej; destruct x; destruct d;
-    try reflexivity;
+  destruct k as [| | | | | | | | |m u|]; try destruct m; try destruct u; destruct rej; destruct x; destruct d as [| | | | | | | | | | | | | | | | | | | | | | |s b];
+    try destruct b; try reflexivity;
     unfold wcall_prop, wobs_of, wrapx, wrap; cbn;
     rewrite ?grpc_code_tables_agree';
     try (destruct (grpc_failure_code code); reflexivity);
